@@ -52,7 +52,7 @@ def cronStep (s : CronDS) (t : List String) : CronDS × String :=
     | none => (s, "panic")
     | some w =>
       let n := int! now
-      let (w', fired, done) := work w n (fun _ => n) s.maxMissed Facts.cronFlushLimit 1000000
+      let (w', fired, done) := work w n s.maxMissed Facts.cronFlushLimit 1000000
       ({ s with worker := some w' }, if done then firedStr fired else "fuel-exhausted")
   | ["cron.update", o, n] =>
     match s.vers.get? (nat! o), s.vers.get? (nat! n) with
